@@ -755,7 +755,14 @@ fn run_reference(
         enabled.dedup();
         match enabled.len() {
             0 => {
-                end = if lift.successors.is_empty() { "stuck:no-out-edge".into() } else { "stuck:no-guard-holds".into() };
+                let at_cond = l.addrs.iter().position(|a| *a == pc).is_some_and(|i| matches!(l.slots[i], Slot::Cond { .. }));
+                end = if lift.successors.is_empty() {
+                    "stuck:no-out-edge".into()
+                } else if at_cond {
+                    format!("stuck:no-guard-holds:cond-branch:{:x}", pc)
+                } else {
+                    "stuck:no-guard-holds".into()
+                };
                 break;
             }
             1 => pc = enabled[0],
@@ -1070,6 +1077,7 @@ pub fn execute(case: &Case) -> Outcome {
     }
 
     // per-unit reference lifts (shared by the structure check and the runs)
+    let slot_index: BTreeMap<u64, usize> = l.addrs.iter().cloned().enumerate().map(|(i, a)| (a, i)).collect();
     let mut cache: BTreeMap<u64, Option<UnitLift>> = BTreeMap::new();
     let reach = {
         let mut filtered = case.clone();
@@ -1097,7 +1105,7 @@ pub fn execute(case: &Case) -> Outcome {
         // where control can go next is known from how the program was assembled: the
         // unit's successor *addresses* (not their conditions, which are lifter semantics)
         // must be exactly those
-        if let Some(si) = l.addrs.iter().position(|x| *x == a) {
+        if let Some(si) = slot_index.get(&a).copied() {
             let next = a + l.lens[si] as u64;
             let tgt = |t: usize| -> u64 {
                 let t = t.min(n - 1);
@@ -1312,6 +1320,27 @@ pub fn execute(case: &Case) -> Outcome {
             c.inc("run.unjudged");
             continue;
         }
+        if refr.end.starts_with("stuck:no-guard-holds:cond-branch") {
+            // both runs share the per-instruction successors, so a conditional branch that
+            // lost one of them stops both alike: judge it on its own - the machine always
+            // continues at the target or at the next instruction
+            return done(
+                Some(Violation::new(
+                    "branch-without-successor",
+                    sig(case, ""),
+                    format!(
+                        "the conditional branch at 0x{} has successors but none is enabled (state seed {}): the machine continues at its target or at the next instruction",
+                        refr.end.rsplit(':').next().unwrap_or("?"),
+                        seed
+                    ),
+                )),
+                c,
+                states,
+                log,
+                ticks,
+                nontrivial,
+            );
+        }
         if refr.units_run >= 3 {
             nontrivial = true;
         }
@@ -1423,6 +1452,33 @@ pub fn generate(run_seed: u64, index: u64) -> Case {
     let mut rng = Rng::new(run_seed);
     let fault_free = index % 4 == 0;
     let arch = *rng.pick(&asm::ALL_ARCHS);
+    // (not MIPS: its three graphs per jump make the same chain take a minute)
+    if !arch.is_mips() && rng.chance(1, 40_000) {
+        // very rarely: a function of tens of thousands of basic blocks (a chain of jumps to
+        // the next instruction), beyond any 16-bit count a translator might keep
+        let n = rng.range(66_000, 70_000) as usize;
+        let mut slots: Vec<Slot> = (0..n).map(|i| Slot::Jump { target: i + 1, short: true, delay: None }).collect();
+        slots.push(Slot::Term { kind: 0, a: 0, delay: None });
+        return Case {
+            arch,
+            slots,
+            base: 0x40_0000,
+            gaps: Vec::new(),
+            eof_cut: 0,
+            into_delay: Vec::new(),
+            mid_targets: Vec::new(),
+            mem_impl: "sim-own".into(),
+            restore: Vec::new(),
+            perms_on: "backing".into(),
+            window_cap: None,
+            manual_edges: Vec::new(),
+            state_seeds: vec![rng.next()],
+            intrinsics: false,
+            fault_free: true,
+            section_cuts: Vec::new(),
+            entry_slot: 0,
+        };
+    }
     let n = rng.range(3, 48) as usize;
     let pad_rate = *rng.pick(&[0u64, 10, 30]);
     let branch_rate = *rng.pick(&[5u64, 15, 30]);
@@ -1627,6 +1683,27 @@ pub fn minimise(case: &Case, class: &str) -> Case {
                 false
             }
         }};
+    }
+    // a giant case costs seconds per execution: only try halving it, then report it as it is
+    if best.slots.len() > 4000 {
+        while best.slots.len() > 4000 {
+            let keep = best.slots.len() / 2;
+            let mut c = best.clone();
+            let term = c.slots.last().cloned().unwrap();
+            c.slots.truncate(keep);
+            c.slots.push(term);
+            for s in c.slots.iter_mut() {
+                if let Slot::Cond { target, .. } | Slot::Jump { target, .. } | Slot::Call { target, .. } = s {
+                    *target = (*target).min(keep);
+                }
+            }
+            if !attempt!(c) {
+                break;
+            }
+        }
+        if best.slots.len() > 4000 {
+            return best;
+        }
     }
     // drop fault and configuration features
     let mut c = best.clone();
